@@ -471,7 +471,9 @@ class SyncEnum(Suite):
     case_timeout = 20
 
     def cases(self, tier):
-        return _enum(tier, SYNC_OPS, (0,))
+        # declared max length equal to the data and 2 bytes beyond it (the end of the data is then not known
+        # to be the end of the stream, so the non-EOF code paths are taken on the last chunk as well)
+        return _enum(tier, SYNC_OPS, (0, 2))
 
     def run(self, case):
         run_sync(case)
@@ -584,5 +586,71 @@ class AsyncRandom(Suite):
     confirm_hang = staticmethod(confirm_hang(run_async))
 
 
-SUITES = [SyncEnum(), AsyncEnum(), SyncRandom(), AsyncRandom()]
+@st.composite
+def _straddle_case(draw, kind):
+    """Constructed so that an occurrence of a >= 2-byte delimiter straddles a buffer / chunk boundary and the
+    cursor is moved to just before, into, or just past its first bytes before the delimited read."""
+    d = draw(st.sampled_from([b'ab', b'--', b'a-b', b'--b', b'aab', b'-ab', b'ab-a', b'b--a', b'aaab']))
+    cs = draw(st.integers(len(d), len(d) + 3))
+    alpha = sorted(set(d)) + [ord('a'), ord('-')]
+    m = draw(st.integers(1, 3))
+    j = draw(st.integers(1, len(d) - 1))
+    start = m * cs - j  # the delimiter starts j bytes before the m-th boundary
+    fill1 = bytes(draw(st.lists(st.sampled_from(alpha), min_size=start, max_size=start)))
+    fill2 = bytes(draw(st.lists(st.sampled_from(alpha), min_size=0, max_size=2 * cs + 2)))
+    data = fill1 + d + fill2
+    n1 = draw(st.integers(max(0, start - 2), start + len(d)))
+    first = draw(st.sampled_from([['read', n1], ['read', n1], ['peek', 1], ['read_until', d[-1:], n1, False], ['peek', cs]]))
+    dist = max(0, start - n1)
+    size = draw(st.sampled_from([-1, -1, dist, dist + 1, dist + 2, max(0, dist - 1), cs, cs - 1, len(d)]))
+    ops = [first, ['read_until', d, size, draw(st.booleans())], ['read', -1]]
+    if draw(st.integers(0, 3)) == 0:
+        ops.insert(0, ['read', draw(st.integers(1, 2))])
+    case = {'data': data, 'chunk_size': cs, 'ops': ops, 'maxlen_delta': 0}
+    if kind == 'sync':
+        case['chunks'] = draw(st.sampled_from([[0], [0], [1], [2, 1], [3]]))
+        case['maxlen_delta'] = draw(st.sampled_from([0, 0, 2]))
+    else:
+        case['chunks'] = draw(st.sampled_from([[cs], [cs], [1], [2, 1], [cs - 1, 1], [cs + 1]]))
+        case['trailing_empty'] = draw(st.booleans())
+    return case
+
+
+class SyncStraddle(Suite):
+    """Sync reader, constructed boundary cases: a 2-4 byte delimiter occurrence straddles the m-th buffer boundary, the
+    cursor is first moved to just before / into / past its first bytes (read, peek, delimited read), then a delimited
+    read with a size cap around the distance to the delimiter, then read(-1)."""
+
+    name = 'sync_straddle'
+    budget = {'quick': 8000, 'thorough': 200000}
+    case_timeout = 20
+
+    def strategy(self, tier):
+        return _straddle_case('sync')
+
+    def run(self, case):
+        run_sync(case)
+        return classify(case, 'sync')
+
+    confirm_hang = staticmethod(confirm_hang(run_sync))
+
+
+class AsyncStraddle(Suite):
+    """Async reader: the same constructed boundary cases over source chunkings aligned and misaligned with chunk_size."""
+
+    name = 'async_straddle'
+    budget = {'quick': 8000, 'thorough': 200000}
+    case_timeout = 20
+
+    def strategy(self, tier):
+        return _straddle_case('async')
+
+    def run(self, case):
+        run_async(case)
+        return classify(case, 'async')
+
+    confirm_hang = staticmethod(confirm_hang(run_async))
+
+
+SUITES = [SyncEnum(), AsyncEnum(), SyncRandom(), AsyncRandom(), SyncStraddle(), AsyncStraddle()]
 KNOWN = {}
